@@ -273,21 +273,19 @@ Proof.
   intros Hs H0 Hw. unfold stage. rewrite Hw. destruct big.
   - pose proof (before_write_facts st) as (B1 & B2 & B3 & B4 & B5). pose proof w_write_pos.
     pose proof (before_write_same st) as (S1 & S2 & S3 & S4).
-    pose proof (flush_nostall c (before_write st) Hs ltac:(lia) ltac:(lia) ltac:(congruence)) as (F1 & F2 & F3 & F4 & F5).
-    assert (G : good (before_write st)) by (split; [lia|constructor]).
-    (* the clock and the bound after a successful flush *)
-    pose proof (flush_good c (before_write st)) as FG.
-    destruct (flush c (before_write st)) as [st2 err] eqn:Ef. cbn [fst snd] in *. subst err.
-    assert (Hn : s_now st2 = s_now st /\ s_armed st2 = s_now st + w_write).
-    { clear FG. unfold flush in Ef. rewrite B5, Hw in Ef. rewrite B4 in Ef.
-      destruct (s_held st) as [|h hs].
-      - injection Ef as <-. split; assumption.
-      - pose proof (arm_facts (before_write st)) as (A1 & A2 & A3 & _).
-        rewrite (conn_write_nostall c (arm (before_write st)) (h :: hs) Hs ltac:(lia) ltac:(lia)) in Ef.
-        injection Ef as <-. cbn. split; lia. }
-    destruct Hn as [N1 N2].
-    rewrite (conn_write_nostall c st2 [id] Hs ltac:(lia) ltac:(lia)). cbn.
-    unfold acct. cbn. rewrite wr_cons, F3, F4, S2, S3. rewrite !app_nil_r. repeat split. congruence.
+    unfold flush. rewrite B5, Hw, B4. unfold acct.
+    destruct (s_held st) as [|h hs] eqn:Eh.
+    + rewrite (conn_write_nostall c (before_write st) [id] Hs ltac:(lia) ltac:(lia)).
+      unfold emit, set_held. cbn [fst snd s_werr s_trace s_held s_served negb].
+      rewrite wr_cons, S2, S3, !app_nil_r. repeat split. exact S4.
+    + pose proof (arm_facts (before_write st)) as (A1 & A2 & A3 & A4 & A5 & _).
+      pose proof (arm_same (before_write st)) as (R1 & R2 & R3 & R4).
+      rewrite (conn_write_nostall c (arm (before_write st)) (h :: hs) Hs ltac:(lia) ltac:(lia)).
+      unfold emit, set_held. cbn [fst snd s_werr s_trace s_held s_served negb].
+      set (stw := mk_sst _ _ _ _ _ _ _ _ _).
+      rewrite (conn_write_nostall c stw [id] Hs ltac:(unfold stw; cbn; lia) ltac:(unfold stw; cbn; lia)).
+      unfold emit, stw. cbn [fst snd s_werr s_trace s_held s_served s_now s_armed negb].
+      rewrite !wr_cons, R2, S2, app_nil_r. repeat split. congruence.
   - cbn. unfold acct. cbn. rewrite app_assoc. repeat split.
 Qed.
 
@@ -297,12 +295,15 @@ Lemma same_J st st' : same st st' -> J st -> J st'.
 Proof. intros (A1 & A2 & A3 & A4) [J1 J2]. unfold J, acct in *. rewrite A1, A2, A3, A4. split; assumption. Qed.
 
 Lemma serve_frame_J c qt rt st id f :
-  tc_stall c < 0 -> good st -> J st -> id = S (s_served st) -> J (serve_frame c qt rt st id f).
+  tc_stall c < 0 -> good st -> J st -> id = S (s_served st) ->
+  J (serve_frame c qt rt st id f) /\ s_served (serve_frame c qt rt st id f) = S (s_served st).
 Proof.
   intros Hs G [J1 J2] Hid. destruct G as [G1 G2]. unfold serve_frame.
-  assert (Hfin : forall x, s_werr x = false -> acct x = acct st ++ [id] -> s_served x = s_served st -> J (count_served x)).
-  { intros x X1 X2 X3. split; [exact X1|]. unfold acct in *. cbn. rewrite X2, X3, J2, Hid.
-    change (S (s_served st)) with (1 + s_served st)%nat. rewrite <- seq_S. reflexivity. }
+  assert (Hfin : forall x, s_werr x = false -> acct x = acct st ++ [id] -> s_served x = s_served st ->
+                 J (count_served x) /\ s_served (count_served x) = S (s_served st)).
+  { intros x X1 X2 X3. split; [|unfold count_served; cbn [s_served]; congruence].
+    split; [exact X1|]. unfold count_served, acct in *. cbn [s_trace s_held s_served].
+    rewrite X2, X3, J2, Hid. rewrite seq_S. reflexivity. }
   destruct (tf_miss f).
   - pose proof (before_write_facts st) as (B1 & B2 & B3 & B4 & B5). pose proof w_write_pos.
     pose proof (before_write_same st) as (S1 & S2 & S3 & S4).
@@ -316,8 +317,8 @@ Proof.
     assert (H2 : 0 <= s_now st2) by (unfold st2; cbn; lia).
     assert (W2 : s_werr st2 = false) by exact F2.
     destruct (stage_nostall c st2 id (tf_big f && (s_now st1 + tf_delay f <? rt + qt)) Hs H2 W2) as (T1 & T2 & T3).
-    apply Hfin; [exact T1| |unfold st2 in T3; cbn in T3; congruence].
-    rewrite T2. unfold acct, st2. cbn. rewrite F3, F4, S2, S3, app_nil_r. reflexivity.
+    apply Hfin; [exact T1| |rewrite T3; unfold st2, set_now; cbn [s_served]; congruence].
+    rewrite T2. unfold acct, st2, set_now. cbn [s_trace s_held]. rewrite F3, F4, S2, S3, app_nil_r. reflexivity.
   - destruct (stage_nostall c st id false Hs G1 J1) as (T1 & T2 & T3). apply Hfin; assumption.
 Qed.
 
@@ -338,13 +339,14 @@ Lemma finish_J c st :
   tc_stall c < 0 -> good st -> J st ->
   wr (s_trace (finish c st)) = seq 1 (s_served (finish c st)).
 Proof.
-  intros Hs [G1 G2] [J1 J2]. unfold finish. cbn. rewrite wr_cons, app_nil_r.
+  intros Hs [G1 G2] [J1 J2]. unfold finish, emit. cbn [s_trace s_served]. rewrite wr_cons, app_nil_r.
+  unfold acct in J2.
   destruct (s_held st) as [|h hs] eqn:Eh.
-  - unfold acct in J2. rewrite Eh, app_nil_r in J2. exact J2.
+  - rewrite app_nil_r in J2. exact J2.
   - pose proof (before_write_facts st) as (B1 & B2 & B3 & B4 & B5). pose proof w_write_pos.
     pose proof (before_write_same st) as (S1 & S2 & S3 & S4).
     destruct (flush_nostall c (before_write st) Hs ltac:(lia) ltac:(lia) ltac:(congruence)) as (F1 & F2 & F3 & F4 & F5).
-    rewrite F4, F5, S2, S3, S4. unfold acct in J2. rewrite Eh in J2. rewrite Eh. exact J2.
+    rewrite F4, F5, S2, S3, S4, Eh. exact J2.
 Qed.
 
 Lemma serve_conn_J c qt fuel frames : forall id wait st,
@@ -395,25 +397,9 @@ Proof.
     assert (Hsv7 : s_served st7 = s_served st).
     { destruct RS as (_ & _ & _ & X1). destruct S26 as (_ & _ & _ & X2). unfold st7. cbn. congruence. }
     assert (Hid7 : id = S (s_served st7)) by congruence.
-    pose proof (serve_frame_J c qt (s_now st3) st7 id f Hs G7 J7 Hid7) as J8.
+    destruct (serve_frame_J c qt (s_now st3) st7 id f Hs G7 J7 Hid7) as [J8 Sv8].
     pose proof (serve_frame_good c qt (s_now st3) st7 id f G7) as G8.
-    apply IH; [exact Hs|exact G8|exact J8| |exact w_idle_pos].
-    unfold serve_frame. cbn. f_equal.
-    destruct (tf_miss f).
-    + pose proof (before_write_same st7) as (S1 & S2 & S3 & S4).
-      destruct J7 as [J71 _]. destruct G7 as [G71 _].
-      pose proof (before_write_facts st7) as (B1 & B2 & B3 & B4 & B5). pose proof w_write_pos.
-      destruct (flush_nostall c (before_write st7) Hs ltac:(lia) ltac:(lia) ltac:(congruence)) as (F1 & F2 & F3 & F4 & F5).
-      assert (Hnow : s_now (fst (flush c (before_write st7))) = s_now st7).
-      { unfold flush. rewrite B5, J71, B4. destruct (s_held st7) as [|h hs]; [exact B1|].
-        pose proof (arm_facts (before_write st7)) as (A1 & A2 & A3 & _).
-        rewrite (conn_write_nostall c (arm (before_write st7)) (h :: hs) Hs ltac:(lia) ltac:(lia)). cbn. lia. }
-      destruct (flush c (before_write st7)) as [st1' e']. cbn [fst snd] in *.
-      match goal with |- s_served (stage c ?x id ?b) = _ =>
-        destruct (stage_nostall c x id b Hs ltac:(cbn; lia) ltac:(exact F2)) as (_ & _ & T3); rewrite T3 end.
-      cbn. congruence.
-    + destruct J7 as [J71 _]. destruct G7 as [G71 _].
-      destruct (stage_nostall c st7 id false Hs G71 J71) as (_ & _ & T3). congruence.
+    apply IH; [exact Hs|exact G8|exact J8|congruence|exact w_idle_pos].
 Qed.
 
 (* For a client that keeps reading (and whatever else it does: timing, half-sent frames,
@@ -429,3 +415,12 @@ Proof.
   apply (serve_conn_J c qt _ frames 1%nat w_first (st0 c) Hs); [split; cbn; [lia|constructor]| |reflexivity|exact w_first_pos].
   split; reflexivity.
 Qed.
+
+(* the hypotheses are satisfiable by the interesting case: a hit staged behind a miss that
+   takes 4 s (twice tcpQueryWait / tcpWriteWait, inside the query timeout), then a follow-up *)
+Example slow_miss_still_answered :
+  let c := mk_tconn [mk_chunk 320 91; mk_chunk 9600 44] (-1) (-1) in
+  let fr := [mk_tframe 42 false 0 false; mk_tframe 45 true 4001 false; mk_tframe 42 false 0 false] in
+  written_ids (run_conn 5027 fr c) = [1; 2; 3]%nat /\
+  forallb live_write (run_conn 5027 fr c) = true.
+Proof. vm_compute. split; reflexivity. Qed.
